@@ -489,7 +489,7 @@ fn gen_mcsv(r: &mut Rng, lines: &[String]) -> (String, u64) {
 
 /// a record (as `rec` words) that differs from `base` in column `c` and nowhere else; for the
 /// molecule column the two also differ after lower-casing (records that differ in the letter case of
-/// the molecule name only are the recorded finding corpus/C12/known-moltype-case.ops)
+/// the molecule name only are EQUAL records: corpus/C12/known-moltype-case.ops)
 fn vary_column(r: &mut Rng, base: &[String], c: usize) -> Vec<String> {
     let mut v = base.to_vec();
     let text = |h: &str| String::from_utf8(unhex(h)).unwrap();
@@ -664,7 +664,7 @@ fn gen(a: &Args) {
     }
     // stream 1b: record equality column by column - a base record and, for every column in turn, a
     // record that differs from it in that column only (internal_location and the derived md5short
-    // are the two columns equality must IGNORE)
+    // are the two columns equality must IGNORE, and so is the letter case of the molecule column)
     let n1b = if a.cases > 0 { a.cases / 10 + 1 } else if thorough { 3000 } else { 150 };
     for _ in 0..n1b {
         o.case("pairs");
@@ -681,6 +681,21 @@ fn gen(a: &Args) {
         for c in 0..11 {
             o.op(&format!("rec {}", vary_column(&mut r, &base, c).join(" ")));
         }
+        // a thirteenth record: the base with only the LETTER CASE of the molecule column changed - the
+        // same record (Record::moltype() is the only observer of that column and ignores the case)
+        let mut twin = base.clone();
+        let mol = String::from_utf8(unhex(&base[4])).unwrap();
+        let flipped: String = mol
+            .chars()
+            .map(|c| if !r.chance(1, 3) { c } else if c.is_ascii_lowercase() { c.to_ascii_uppercase() } else { c.to_ascii_lowercase() })
+            .collect();
+        twin[4] = hex(flipped.as_bytes());
+        twin[0] = hex(gen_string(&mut r).as_bytes());
+        o.op(&format!("rec {}", twin.join(" ")));
+        o.op("isect 0 12");
+        o.op("isect 12 0");
+        o.op("superset 0,12 12,0");
+        o.op(&format!("cisect 12,{} 0", r.range(1, 11)));
         let all: Vec<u64> = (0..12).collect();
         for c in 1..12u64 {
             o.op(&format!("isect 0 {}", c));
@@ -694,7 +709,7 @@ fn gen(a: &Args) {
         o.op(&format!("isect 0 {}", show_nats(all.clone())));
         o.op(&format!("cisect {} {}", show_nats(all.clone()), r.range(0, 11)));
         for _ in 0..3 {
-            let pick = |r: &mut Rng| -> Vec<u64> { (0..r.range(0, 5)).map(|_| r.below(12)).collect() };
+            let pick = |r: &mut Rng| -> Vec<u64> { (0..r.range(0, 5)).map(|_| r.below(13)).collect() };
             let (x, y) = (pick(&mut r), pick(&mut r));
             o.op(&format!("isect {} {}", show_nats(x.clone()), show_nats(y.clone())));
             o.op(&format!("superset {} {}", show_nats(x), show_nats(y)));
